@@ -97,6 +97,7 @@ def load_known():
 
 def finish(prop, tier, seed, pairs, t0, level="model_checking", assumptions=(), bounds=None, extra_cov=None, stubs=()):
     """merge job results, write evidence, print VIOLATION / KNOWN-FINDING lines, return the exit code."""
+    EVID = os.environ.get("SYMX_EVIDENCE_DIR") or globals()["EVID"]
     os.makedirs(EVID, exist_ok=True)
     known = [k for k in load_known() if k.get("property") == prop and k.get("status", "open") == "open"]
     paths = queries = validated = witnesses = 0
